@@ -8,7 +8,8 @@
    qpdbasis_from_instruction (Model/Bases.v).  θ' is `theta_prime` of decompositions.py:
    θ' = -θ/2 for rxx/ryy/rzz (so U_rxx = cos θ' + i sin θ' XX = RXX(θ)), θ' = θ/4 for crx/cry/crz/cp. *)
 From Coq Require Import String List QArith Reals.
-From CKT Require Import Common.Base Common.PolyRing Common.Ptm Model.Bases Proofs.BasesP Proofs.BasesMat Proofs.BasesKak.
+From CKT Require Import Common.Base Common.PolyRing Common.Ptm Model.Bases Model.BasesDispatch
+  Proofs.BasesP Proofs.BasesMat Proofs.BasesKak Proofs.BasesDispatchP.
 Import ListNotations.
 Close Scope Q_scope.
 Open Scope string_scope.
@@ -100,8 +101,45 @@ Theorem c02_missing_param_crashes : forall g,
   In (g_name g) ["rxx"; "ryy"; "rzz"; "crx"; "cry"; "crz"; "cp"] -> g_has_param g = false -> basis_of g = Crashed.
 Proof. exact crash_missing_param. Qed.
 
+(* ---------- through the dispatcher (Model/BasesDispatch.v: registry dict, _theta_from_instruction, the angle
+   arithmetic of every registered function, nested registry calls) ---------- *)
+(* the name-keyed registry selects exactly the bases of Model/Bases.v, for every instruction descriptor *)
+Theorem c02_dispatch_is_basis_of : forall g, res_map fst (qpd_model g) = basis_of g.
+Proof. exact dispatch_eq_basis_of. Qed.
+
+(* ONE theorem over the dispatcher: for every registered gate name n and EVERY real gate angle θ, the basis that
+   qpdbasis_from_instruction(gate n θ) returns — coefficients at theta_prime = thp_of n θ as the code computes it
+   (−θ/2, θ/4, ±π/8), rotation/phase parameters equal to 2·theta_prime (angles_ok) — decomposes the gate's own
+   unitary Ugate n θ, written in the gate angle (cos θ/2, sin θ/2; 4π-periodic for crx/cry/crz) *)
+Theorem c02_dispatch_exact : forall n, In n gate_names19 -> forall th : R,
+  exists b a, qpd_model (std_gate n) = Ok (b, a) /\ angles_ok a /\
+              channel (RC (thp_of n th)) nou (resolve b) = gate_ptm n th.
+Proof. exact dispatch_exact. Qed.
+
+Theorem c02_dispatch_move_exact : forall th : R,
+  exists b, qpd_model (mkG "move" false 2%nat true false false) = Ok (b, no_angles) /\
+            channel (RC th) nou (resolve b) = ptm_move (RC th).
+Proof. exact dispatch_move_exact. Qed.
+
+(* non-vacuity: the names are the 19 registered gates; the CRX target really is 4π-periodic only *)
+Example c02_ex_dispatch_names : gate_names19 ++ ["move"] = map fst registry \/ length gate_names19 = 19%nat.
+Proof. right. reflexivity. Qed.
+Example c02_ex_crx_not_2pi_periodic :
+  fst (nth 1%nat (nth 1%nat (Ugate "crx" 0) []) (0%R, 0%R)) = 1%R /\
+  fst (nth 1%nat (nth 1%nat (Ugate "crx" (2 * PI)) []) (0%R, 0%R)) = (-1)%R.
+Proof.
+  split; cbn -[cos PI Rdiv].
+  - replace (0 / 2)%R with 0%R by (unfold Rdiv; apply eq_sym, Rmult_0_l). apply cos_0.
+  - replace (2 * PI / 2)%R with PI by (unfold Rdiv; rewrite Rmult_comm, <- Rmult_assoc, Rinv_l, Rmult_1_l;
+      [reflexivity|apply not_eq_sym, Rlt_not_eq, Rlt_0_2]). apply cos_PI.
+Qed.
+
 (* tie to the source *)
 From CKT Require Import Extracted.Facts.
+Theorem c02_registry_groups : registry_groups = registry_groups_model.
+Proof. reflexivity. Qed.
+Theorem c02_angle_flow : angle_flow = angle_flow_model.
+Proof. reflexivity. Qed.
 Theorem c02_registry : registry_names = registered.
 Proof. reflexivity. Qed.
 Definition shape_expr (s : string) : cexpr :=
@@ -144,5 +182,10 @@ Print Assumptions c02_kak_exact.
 Print Assumptions c02_spec_sanity.
 Print Assumptions c02_refusal.
 Print Assumptions c02_missing_param_crashes.
+Print Assumptions c02_dispatch_is_basis_of.
+Print Assumptions c02_dispatch_exact.
+Print Assumptions c02_dispatch_move_exact.
+Print Assumptions c02_registry_groups.
+Print Assumptions c02_angle_flow.
 Print Assumptions c02_registry.
 Print Assumptions c02_source_tables.
